@@ -136,7 +136,8 @@ def _styles(api):
                 raise api.P.Untranslatable("%s:%d: TableStyle.%s: statement not understood" % (rel, st.lineno, name))
         if base is None:
             raise api.P.Untranslatable("%s: TableStyle.%s does not set a border style" % (rel, name))
-        out.append((name, base, copies, sets))
+        # the assignments in the order of the fields, a field assigned twice keeps its last value (same end state)
+        out.append((name, base, copies, sorted(dict(sets).items())))
     # the cached border styles
     treeb, relb = api.parse("ui/style/border_style.py")
     bases = {}
